@@ -34,7 +34,7 @@ pub fn grid(ctx: &Ctx, st: &Stats, exact: bool) {
     let long_lens: Vec<usize> = if quick {
         vec![383, 384, 385, 511, 512, 513, 1023, 1024, 1025]
     } else if ctx.quick() {
-        (321..=1100).collect()
+        (321..=1600).chain([2047, 2048, 2049, 4095, 4096, 4097]).collect()
     } else {
         (321..=2200).chain([4095, 4096, 4097, 8191, 8192, 8193, 65535, 65536, 65537]).collect()
     };
@@ -269,7 +269,7 @@ pub fn run(ctx: &Ctx) -> i32 {
     let ml = 320;
     finish(ctx, &st, Finish {
         level: "exploration",
-        rule: format!("every compiled kernel (avx512, avx2, ssse3, portable, each called individually through the hook) and the public dispatcher x 4 operations x every length 0..={} x destination offsets {} x source offsets {{0,1,7,8,31,33,63}} x contents x scalars {{0,1,2,0x1D,0x80,0xFF}} (grid A); all 256 scalars on lengths 0..=70,127..=130,191..=193,255..=257,320 (grid B); 52 rotations x 256 scalars so that every lane sees every byte value with every scalar (grid C); one-hot at every position for len<=130 (grid D); packed bit vectors of every length (all padding-bit counts) with patterns 00/ff/alt/alt3/lcg (grid E); long operands: every length 321..=1100 (thorough: ..=2200 and 4095..4097, 8191..8193, 65535..65537) x offsets {{0,1,63}} x {{0,33}} x 6 scalars, bit vectors with dense, alternating, empty and one-hot contents (grid F). Oracle: element-wise reference field arithmetic, canaries around the destination, source unchanged. Repeated in the debug-assertions build (documented scalar preconditions of the dispatchers respected there), and through the public dispatchers of the no_std build of the library (their real portable path; lengths 0..=320, offsets {{0,1,7}}, all scalars on boundary lengths, bit patterns incl. one-hot). distinct_nontrivial = (operation, kernel, length) units.", ml, "0..63 (debug-assertions build in the quick tier: 11 offsets, lengths <= 256)"),
+        rule: format!("every compiled kernel (avx512, avx2, ssse3, portable, each called individually through the hook) and the public dispatcher x 4 operations x every length 0..={} x destination offsets {} x source offsets {{0,1,7,8,31,33,63}} x contents x scalars {{0,1,2,0x1D,0x80,0xFF}} (grid A); all 256 scalars on lengths 0..=70,127..=130,191..=193,255..=257,320 (grid B); 52 rotations x 256 scalars so that every lane sees every byte value with every scalar (grid C); one-hot at every position for len<=130 (grid D); packed bit vectors of every length (all padding-bit counts) with patterns 00/ff/alt/alt3/lcg (grid E); long operands: every length 321..=1600 and around 2048, 4096 (thorough: ..=2200 and 4095..4097, 8191..8193, 65535..65537) x offsets {{0,1,63}} x {{0,33}} x 6 scalars, bit vectors with dense, alternating, empty and one-hot contents (grid F). Oracle: element-wise reference field arithmetic, canaries around the destination, source unchanged. Repeated in the debug-assertions build (documented scalar preconditions of the dispatchers respected there), and through the public dispatchers of the no_std build of the library (their real portable path; lengths 0..=320, offsets {{0,1,7}}, all scalars on boundary lengths, bit patterns incl. one-hot). distinct_nontrivial = (operation, kernel, length) units.", ml, "0..63 (debug-assertions build in the quick tier: 11 offsets, lengths <= 256)"),
         exhaustive: false,
         assumptions: vec!["NEON kernels cannot execute on this x86 host".into(), "lengths above 1100 (thorough: 2200) only at the listed powers of two".into()],
         extra: Map::new(),
